@@ -217,5 +217,6 @@ type Trace struct {
 	UnstoppedWatch                 int      // watchers the library never stopped
 	Panics                         []string // panics recovered inside harness callbacks (none expected)
 	HarnessErr                     string
+	HammerCalls                    int
 	ExcludedRestartAfterFailedStop int
 }
